@@ -100,7 +100,7 @@ class World(View):
                                methods=dict(callback=lambda self_, batch, batch_index: self.log.append(('callback', batch, batch_index))))
         self.compiled = make_object('CompiledNet')
         self.log = []           # python-level event log of THIS path
-        self.net_term = lambda netobj: LOADED(netobj.index, netobj.ov)
+        self.ov_of = lambda netobj: netobj.ov      # which abstract override a python net object carries (set by the contract)
 
     nxt = property(lambda self: T(self.handler._next_batch_index), lambda self, v: setattr(self.handler, '_next_batch_index', SInt(v)))
     nsub = property(lambda self: T(self.ctx.num_submissions), lambda self, v: setattr(self.ctx, 'num_submissions', SInt(v)))
@@ -328,9 +328,9 @@ def abs_client(vc, W):
         y = vc.fresh_int('task_id', size=True)
         vc.assume(z3.Not(W.live[y]))                       # a fresh id: not in the client's task table
         W.log.append(('apply', y, netobj, {k: dict(v) for k, v in netobj.nodes.items()}, W.snap()))
-        nt = W.net_term(netobj)
+        ov = W.ov_of(netobj)
         W.live, W.mine = z3.Store(W.live, y, True), z3.Store(W.mine, y, True)
-        W.net, W.ovof = z3.Store(W.net, y, nt), z3.Store(W.ovof, y, netobj.ov)
+        W.net, W.ovof = z3.Store(W.net, y, LOADED(netobj.index, ov)), z3.Store(W.ovof, y, ov)
         return SInt(y)
 
     def apply_sync(self_, kallable, *args, **kwargs):
@@ -339,7 +339,7 @@ def abs_client(vc, W):
         if not okay:
             raise OutOfSubset('client.apply_sync with something else than Executor.execute(loaded_net)')
         W.log.append(('apply_sync', args[0]))
-        return SKey(EXEC(W.net_term(args[0])))
+        return SKey(EXEC(LOADED(args[0].index, W.ov_of(args[0]))))
 
     def get_result(self_, task_id):
         x = T(task_id)
@@ -429,7 +429,7 @@ class Submit(HandlerContract):
         else:
             s.ov = NONE_OV
             s.batch = None if self.form == 'none' else {}
-        W.net_term = lambda netobj: LOADED(netobj.index, s.ov)      # DEFINITION of LOADED(i, ov): the loaded net of i with the override applied
+        W.ov_of = lambda netobj: s.ov      # DEFINITION of LOADED(i, ov): the net loaded for i with the override `ov` (the abstract value of `batch`) applied
         return s, (h,) + (() if self.form == 'none' else (s.batch,)), {}
 
     def ensures(self, s, result):
@@ -443,20 +443,175 @@ class Submit(HandlerContract):
             want_nodes['t1'], want_nodes['t2'] = {'output': s.v1}, {'output': s.v2}
         same_nodes = set(nodes) == set(want_nodes) and all(
             set(nodes[k]) == set(want_nodes[k]) and all(nodes[k][a] is want_nodes[k][a] or nodes[k][a] == want_nodes[k][a] for a in nodes[k]) for k in nodes)
-        E = old.snap()
-        E.ovof = z3.Store(E.ovof, y, NONE_OV)      # (the client-side ghost is keyed on the net object; the override is in its term)
         E2 = old.snap()
         eff_submit(E2, y, s.ov)
-        E2.ovof = W.ovof
         return [('the net is loaded for index = next_index', ld[0][1] == old.nxt),
                 ('the submitted net is that loaded net with exactly the overrides applied (output set, operation removed), other nodes untouched',
                  z3.BoolVal(netobj is ld[0][2] and same_nodes)),
                 ('the task id is fresh', z3.Not(old.live[y]))] + \
             same_view(W, E2, what='submit: ') + \
-            [('handler_ok re-established: ' + n, f) for n, f in handler_ok_after_submit(W, s.ov)]
+            [('handler_ok re-established: ' + n, f) for n, f in handler_ok(W)[:2]]
 
 
-def handler_ok_after_submit(W, ov):
-    V = W.snap()
-    V.ovof = z3.Store(V.ovof, V.ids[V.hi - 1], ov)
-    return handler_ok(V)[:2]
+# ---------------------------------------------------------------------------------------------- BatchHandler.wait_next
+class WaitNext(HandlerContract):
+    target = 'elfi/client.py::BatchHandler.wait_next'
+
+    def setup(self, vc):
+        W, h = self.world(vc)
+        return NS(W=W, h=h), (h,), {}
+
+    def raises(self, s):
+        return {'ValueError': s.old.W.lo == s.old.W.hi}
+
+    def iff_raises(self, s):
+        return [('a normal return only if something was pending', s.old.W.lo < s.old.W.hi)]
+
+    def ensures(self, s, result):
+        W, old = s.W, s.old.W
+        E = old.snap()
+        b, i = eff_wait_next(E)
+        cb, gr = W.events('callback'), W.events('get_result')
+        if not (isinstance(result, tuple) and len(result) == 2):
+            return [('returns the pair (batch, batch_index)', z3.BoolVal(False))]
+        return [('pops the SMALLEST pending index', T(result[1]) == old.lo),
+                ('returns the result of the net submitted for that index', A(T(result[0]) == EXEC(old.net[old.ids[old.lo]]),
+                                                                          T(result[0]) == EXEC(LOADED(old.lo, old.ovof[old.ids[old.lo]])))),
+                ('get_result is called once, on the task of that index', z3.BoolVal(len(gr) == 1) if len(gr) != 1 else gr[0][1] == old.ids[old.lo]),
+                ('context.callback is called exactly once, with (batch, batch_index)',
+                 z3.BoolVal(len(cb) == 1 and cb[0][1] is result[0]) if not (len(cb) == 1 and cb[0][1] is result[0]) else T(cb[0][2]) == old.lo)] + \
+            same_view(W, E, what='wait_next: ') + [('handler_ok re-established: ' + n, f) for n, f in handler_ok(W)[:2]]
+
+
+# ---------------------------------------------------------------------------------------------- BatchHandler.cancel_pending
+class CancelPending(HandlerContract):
+    """loop 0: `for batch_index, id in reversed(list(self._pending_batches.items()))` - j = number of items done"""
+    target = 'elfi/client.py::BatchHandler.cancel_pending'
+
+    def setup(self, vc):
+        W, h = self.world(vc)
+        return NS(W=W, h=h), (h,), {}
+
+    def _inv(self, s, l):
+        W, E0, j = s.W, l.entry.W, l.it.index
+        E = E0.snap()
+        E.lo = E0.hi - j                     # the effect of cancelling the j newest items = eff_cancel on the sub-range [hi0 - j, hi0)
+        eff_cancel(E)
+        return [('the j newest keys are gone, the next index is rewound to the oldest cancelled', A(W.lo == E0.lo, W.hi == E0.hi - j, W.nxt == E0.hi - j, W.nsub == E0.nsub, W.rm_n == E0.rm_n + j)),
+                ('ids, nets, ghost inverse untouched', A(W.ids == E0.ids, W.pidx == E0.pidx, W.net == E0.net, W.ovof == E0.ovof, W.mine == E0.mine)),
+                ('exactly the j newest tasks left the client', W.live == E.live),
+                ('remove_task was called once for each of them, newest first', W.rm_seq == E.rm_seq)]
+
+    @property
+    def loops(self):
+        return {0: Loop(inv=self._inv, modifies=lambda s, l: [s.W], snapshot=lambda s, l: dict(W=s.W.snap()))}
+
+    def raises(self, s):
+        return {}        # the `Batches are not in order` branch is unreachable under handler_ok
+
+    def ensures(self, s, result):
+        W, old = s.W, s.old.W
+        E = old.snap()
+        eff_cancel(E)
+        return same_view(W, E, what='cancel_pending: ') + \
+            [('no pending batch is left and the next index is the oldest cancelled one', A(W.hi == W.lo, W.nxt == old.lo)),
+             ('every pending task has left the client', forall_range(old.lo, old.hi, lambda i: z3.Not(W.live[old.ids[i]]), 'i')),
+             ('every pending id was passed to remove_task exactly once (ids are pairwise distinct)',
+              A(W.rm_n == old.rm_n + (old.hi - old.lo), forall_range(0, old.hi - old.lo, lambda k: W.rm_seq[old.rm_n + k] == old.ids[old.hi - 1 - k], 'k'))),
+             ('no other task is touched', forall_id(lambda x: z3.Implies(z3.Not(pend(old, x)), W.live[x] == old.live[x])))] + \
+            [('handler_ok re-established: ' + n, f) for n, f in handler_ok(W)[:2]]
+
+
+def stub_cancel(W):
+    def cancel_pending(self_):
+        cur().libcall('stub:cancel_pending', ())
+        for n, f in handler_ok(W)[:2]:
+            cur().oblige('call-pre[cancel_pending: handler_ok: %s]' % n, f)
+        W.log.append(('cancel_pending', W.snap()))
+        eff_cancel(W)
+    return cancel_pending
+
+
+class Reset(HandlerContract):
+    target = 'elfi/client.py::BatchHandler.reset'
+
+    def setup(self, vc):
+        W = World(vc)
+        h = real_handler(vc, W, stubs=dict(cancel_pending=stub_cancel(W)))
+        return NS(W=W, h=h), (h,), {}
+
+    def ensures(self, s, result):
+        W, old = s.W, s.old.W
+        E = old.snap()
+        eff_reset(E)
+        return [('cancel_pending is called once', z3.BoolVal(len(W.events('cancel_pending')) == 1)),
+                ('no pending batch is left, the next index is 0', A(W.hi == W.lo, W.nxt == 0)),
+                ('every pending task has left the client', forall_range(old.lo, old.hi, lambda i: z3.Not(W.live[old.ids[i]]), 'i'))] + \
+            same_view(W, E, fields=[f for f in VIEW_FIELDS if f not in ('lo', 'hi')], what='reset: ')
+
+
+# ---------------------------------------------------------------------------------------------- BatchHandler.has_ready
+class HasReady(HandlerContract):
+    """any=False (the only form used in the tree): loop 0 is left by `return` / `break` in its first iteration"""
+    target = 'elfi/client.py::BatchHandler.has_ready'
+    label = 'any=False'
+
+    def setup(self, vc):
+        W, h = self.world(vc)
+        return NS(W=W, h=h), (h,), {}
+
+    loops = {0: Loop(inv=lambda s, l: [('no iteration completes: the loop is left in its first round', l.it.index == 0)])}
+
+    def ensures(self, s, result):
+        W, old = s.W, s.old.W
+        asked = W.events('is_ready')
+        r = T(result)
+        if len(asked) == 0:
+            out = [('nothing pending: False, without asking the client', A(r == z3.BoolVal(False), old.lo == old.hi))]
+        elif len(asked) == 1:
+            out = [('otherwise ONE question, about the OLDEST pending task, and its answer is the result',
+                    A(asked[0][1] == old.ids[old.lo], r == asked[0][2], r == has_ready_value(old, asked[0][2])))]
+        else:
+            out = [('at most one question to the client', z3.BoolVal(False))]
+        return out + same_view(W, old, what='has_ready changes nothing: ')
+
+
+# ---------------------------------------------------------------------------------------------- counters, compute
+class Counters(HandlerContract):
+    def __init__(self, name):
+        self.name = name
+        self.target = 'elfi/client.py::BatchHandler.%s' % name
+
+    def setup(self, vc):
+        W, h = self.world(vc)
+        return NS(W=W, h=h), (h,), {}
+
+    def ensures(self, s, result):
+        W, old = s.W, s.old.W
+        want = dict(next_index=lambda: T(result) == old.nxt, total=lambda: T(result) == old.nxt,
+                    num_pending=lambda: T(result) == old.hi - old.lo, num_ready=lambda: T(result) == old.lo,
+                    has_pending=lambda: T(result) == (old.hi > old.lo),
+                    pending_indices=lambda: A(T(len_of(result)) == old.hi - old.lo, forall_range(0, old.hi - old.lo, lambda k: T(result.elt(k)) == old.lo + k, 'k')))
+        return [('%s is what the view says' % self.name, want[self.name]())] + same_view(W, old, what='a counter changes nothing: ')
+
+
+def len_of(x):
+    return x._vc_len()
+
+
+class Compute(HandlerContract):
+    target = 'elfi/client.py::BatchHandler.compute'
+
+    def setup(self, vc):
+        W, h = self.world(vc)
+        idx = vc.fresh_int('batch_index', size=True)
+        return NS(W=W, h=h, idx=idx), (h, SInt(idx)), {}
+
+    def ensures(self, s, result):
+        W, old = s.W, s.old.W
+        return [('blocking compute returns the result of the net loaded for that index (no override), through apply_sync', T(result) == EXEC(LOADED(s.idx, NONE_OV))),
+                ('no task is queued', z3.BoolVal(len(W.events('apply')) == 0 and len(W.events('apply_sync')) == 1))] + same_view(W, old, what='compute changes nothing: ')
+
+
+CONTRACTS = [Submit('none'), Submit('empty'), Submit('overrides'), WaitNext(), CancelPending(), Reset(), HasReady()] + \
+    [Counters(n) for n in ('next_index', 'total', 'num_pending', 'num_ready', 'has_pending', 'pending_indices')] + [Compute()]
